@@ -14,10 +14,21 @@ def tasks(tier, seed):
     inst.sort(key=lambda t: -t[2])
     nchunks = 48 if tier == "quick" else 160
     chunks = [inst[i::nchunks] for i in range(nchunks)]
-    return [{"name": f"validators-{i}", "fn": "validators", "mode": MODE, "instances": c} for i, c in enumerate(chunks) if c]
+    ts = [{"name": f"validators-{i}", "fn": "validators", "mode": MODE, "instances": c} for i, c in enumerate(chunks) if c]
+    # transport half: a complete conforming answer must make the request succeed at once, also when an earlier request
+    # on the same object left a fragment behind whose missing tail has exactly this answer's length
+    for framing in ("rtu", "tcp"):
+        for ka in (False, True):
+            ts.append({"name": f"transport-{framing}-{ka}", "fn": "transport", "framing": framing, "ka": ka})
+    return ts
 
 
 def run_task(task):
+    if task["fn"] == "transport":
+        from .c07 import Fragments
+        h = Fragments(task["framing"], task["ka"], 2, "stale_next_request")
+        h.name = "conforming-after-fragment"
+        return {"harnesses": [explore(h, max_paths=5000, max_seconds=600, witnesses_per_outcome=1)]}
     out = []
     for framing, kind, n, m in task["instances"]:
         h = V.ValidatorHarness(task["mode"], framing, kind, n, m)
@@ -27,6 +38,9 @@ def run_task(task):
 
 def replay(case):
     p = case["params"]
+    if case["harness"] == "conforming-after-fragment":
+        from .c07 import Fragments
+        return Fragments(p["framing"], p["keep_alive"], p["count"], p["variant"], p["T"], p["retries"]).concrete(case["inputs"])
     h = V.ValidatorHarness(MODE, p["framing"], p["kind"], p["n"], p["m"])
     return h.concrete(case["inputs"])
 
